@@ -16,7 +16,7 @@ Lemma wfs_plain :
 Proof.
   apply stmt_block_ind; try (intros; cbn in *; auto; discriminate).
   - intros c cb x y body IH H. cbn [wfs] in H. split_andb. cbn [plain noepr]. auto.
-  - intros cb v oreg a e st body IH H. destruct oreg; [discriminate|]. cbn [wfs] in H. split_andb.
+  - intros cb v oreg a e st body IH H. cbn [wfs] in H. split_andb.
     cbn [plain noepr]. auto.
   - intros enum v a body IH H. cbn [wfs] in H. split_andb. cbn [plain noepr]. auto.
   - intros v mx body IHb cx bound cl IHc H. cbn [wfs] in H. split_andb. cbn [plain noepr].
@@ -101,12 +101,12 @@ Proof.
          by (eapply sba_trans; [exact Sx|eapply sba_trans; [eapply low_cval_sba; eauto|apply sba_release_all]]);
        destruct S as (_ & _ & _ & A & B & _); split; congruence).
   - (* SLoop *) intros cb v oreg start stop step body IH Hn Hp He st code st' H.
-    destruct oreg; [discriminate|]. cbn [noreg plain noepr] in *. cbn [lower_stmt] in H.
+    cbn [noreg plain noepr] in *. cbn [lower_stmt] in H.
     destruct (alook v (l_lv st)); [discriminate|].
-    destruct (take st) as [[r s1]|] eqn:Ht; cbn [bind] in H; [|discriminate].
+    destruct (take_at oreg st) as [[r s1]|] eqn:Ht; cbn [bind] in H; [|discriminate].
     destruct (lower_block true body (bind_lvr v r s1)) as [[cbody s2]|] eqn:Hb; cbn [bind] in H; [|discriminate].
     destruct (IH Hn Hp He _ _ _ Hb) as [R1 T1]. cbn in R1, T1.
-    destruct (sba_take _ _ _ Ht) as (_ & _ & _ & A & B & _).
+    destruct (sba_take_at _ _ _ _ Ht) as (_ & _ & _ & A & B & _).
     destruct (is_nil cbody); inversion H; subst; cbn; split; congruence.
   - (* SForeach *) intros enum v a body IH Hn Hp He st code st' H.
     cbn [noreg plain noepr] in *. cbn [lower_stmt] in H.
@@ -135,8 +135,24 @@ Proof.
     inversion H; subst; cbn; split; congruence.
   - intros k body IH _ _ He. discriminate.
   - intros _ _ _ st c st' H. discriminate.
-  - intros a b n o m _ Hw. discriminate.
-  - intros q ip a b n _ Hw. discriminate.
+  - intros a b n o m _ Hp He st c st' H. cbn [lower_stmt] in H.
+    destruct (take st) as [[t s1]|] eqn:Ht; cbn [bind] in H; [|discriminate].
+    destruct (take s1) as [[ti s1i]|] eqn:Hti; cbn [bind] in H; [|discriminate].
+    destruct (low_src o (release ti s1i)) as [[[[lo y] ts] s2]|] eqn:Hs; cbn [bind] in H; [|discriminate].
+    match type of H with Ok (_, ?X) = _ => assert (Es : st' = X) by (inversion H; reflexivity) end.
+    assert (S : sba st st').
+    { rewrite Es. eapply sba_trans; [eapply sba_take; eauto|].
+      eapply sba_trans; [eapply sba_take; eauto|].
+      eapply sba_trans; [apply sba_release|].
+      eapply sba_trans; [eapply low_src_sba; eauto|].
+      eapply sba_trans; [apply sba_release|apply sba_release_all]. }
+    destruct S as (_ & _ & _ & A & B & _). auto.
+  - intros q ip a b n _ _ _ st c st' H. cbn [lower_stmt] in H.
+    destruct (low_meas q ip false st) as [[[m c0] s1]|] eqn:Em; cbn [bind] in H; [|discriminate].
+    destruct (take s1) as [[ti s1i]|] eqn:Hti; cbn [bind] in H; [|discriminate]. inversion H; subst.
+    destruct (low_meas_facts _ _ _ _ _ _ _ Em) as (id & _ & _ & _ & _ & _ & R1 & _ & _ & _ & _ & Rt & _).
+    assert (S : sba s1 (release ti s1i)) by (eapply sba_trans; [eapply sba_take; eauto|apply sba_release]).
+    destruct S as (_ & _ & _ & A & B & _). split; congruence.
   - intros _ _ _ st c st' H. inversion H; subst. auto.
   - intros s IHs b IHb Hn Hp He st c st' H. cbn [bnoreg bplain bnoepr] in *.
     apply andb_prop in Hn. destruct Hn as [Hn1 Hn2]. apply andb_prop in Hp. destruct Hp as [Hp1 Hp2].
@@ -285,16 +301,15 @@ Proof.
        inv_ok H; apply Fin;
        eapply sba_trans; [exact Sx|eapply sba_trans; [eapply low_cval_sba; eauto|apply sba_release_all]]).
   - (* SLoop *) intros cb v oreg start stop step body IH loc loc' Hq Hp He st code st' base Lq H I E <-.
-    destruct oreg; [discriminate|].
     cbn [qs] in Hq. destruct (qb body []) as [[|? ?]|] eqn:Eb; try discriminate. inv_ok Hq.
     cbn [plain noepr] in Hp, He.
     assert (Hw : wf_body body = true) by (unfold wf_body; rewrite Eb; reflexivity).
     cbn [lower_stmt] in H.
     destruct (alook v (l_lv st)); [discriminate|].
-    destruct (take st) as [[r s1]|] eqn:Ht; cbn [bind] in H; [|discriminate].
+    destruct (take_at oreg st) as [[r s1]|] eqn:Ht; cbn [bind] in H; [|discriminate].
     destruct (lower_block true body (bind_lvr v r s1)) as [[cbody s2]|] eqn:Hb; cbn [bind] in H; [|discriminate].
-    assert (Q1 := body_restores body IH Hp He Hw _ _ _ Hb (Inv_bind_loop _ _ _ v Ht I)). cbn in Q1.
-    destruct (sba_take _ _ _ Ht) as (_ & Q0 & _).
+    assert (Q1 := body_restores body IH Hp He Hw _ _ _ Hb (Inv_bind_loop_at _ _ _ _ v Ht I)). cbn in Q1.
+    destruct (sba_take_at _ _ _ _ Ht) as (_ & Q0 & _).
     exists Lq. split; [|reflexivity]. destruct (is_nil cbody); inv_ok H; cbn; congruence.
   - (* SForeach *) intros enum v a body IH loc loc' Hq Hp He st code st' base Lq H I E <-.
     cbn [qs] in Hq. destruct (qb body []) as [[|? ?]|] eqn:Eb; try discriminate. inv_ok Hq.
@@ -334,8 +349,28 @@ Proof.
     destruct S3 as (_ & Q3 & _). inv_ok H. cbn. congruence.
   - intros k body IH loc loc' Hq. discriminate.
   - intros loc loc' Hq. discriminate.
-  - intros a b n o m loc loc' Hq. discriminate.
-  - intros q ip a b n loc loc' Hq. discriminate.
+  - (* SFutAddX *) intros a b n o m loc loc' Hq _ _ st c st' base Lq H I E <-. inv_ok Hq. cbn [lower_stmt] in H.
+    destruct (take st) as [[t s1]|] eqn:Ht; cbn [bind] in H; [|discriminate].
+    destruct (take s1) as [[ti s1i]|] eqn:Hti; cbn [bind] in H; [|discriminate].
+    destruct (low_src o (release ti s1i)) as [[[[lo y] ts] s2]|] eqn:Hs; cbn [bind] in H; [|discriminate].
+    match type of H with Ok (_, ?X) = _ => assert (Es : st' = X) by (inversion H; reflexivity) end.
+    assert (S : sba st st').
+    { rewrite Es. eapply sba_trans; [eapply sba_take; eauto|].
+      eapply sba_trans; [eapply sba_take; eauto|].
+      eapply sba_trans; [apply sba_release|].
+      eapply sba_trans; [eapply low_src_sba; eauto|].
+      eapply sba_trans; [apply sba_release|apply sba_release_all]. }
+    destruct S as (_ & Q & _). rewrite Q. eauto.
+  - (* SMeasFutX *) intros q ip a b n loc loc' Hq _ _ st c st' base Lq H I E <-. cbn [lower_stmt] in H.
+    destruct (low_meas q ip false st) as [[[m c0] s1]|] eqn:Em; cbn [bind] in H; [|discriminate].
+    destruct (take s1) as [[ti s1i]|] eqn:Hti; cbn [bind] in H; [|discriminate]. inv_ok H.
+    destruct (low_meas_facts _ _ _ _ _ _ _ Em) as (id & _ & _ & Q1 & _).
+    assert (S : sba s1 (release ti s1i)) by (eapply sba_trans; [eapply sba_take; eauto|apply sba_release]).
+    destruct S as (_ & Q & _). rewrite Q, Q1.
+    destruct ip; cbn [qs] in Hq.
+    + inv_ok Hq. eauto.
+    + destruct (memn q (map fst Lq)) eqn:Mq; [|discriminate]. inv_ok Hq.
+      apply (consume_local st base Lq q (i_qn _ I) E Mq).
   - intros loc loc' Hq _ _ st c st' base Lq H I E <-. inv_ok Hq. inv_ok H. eauto.
   - intros s IHs b IHb loc loc' Hq Hp He st c st' base Lq H I E <-. cbn [qb] in Hq.
     destruct (qs s (map fst Lq)) as [l1|] eqn:E1; [|discriminate]. cbn [bplain bnoepr] in Hp, He.
